@@ -531,6 +531,8 @@ def gen_pars(w, info, two_d, tier):
     # so that a workload (reference + ~15 schedules) stays within seconds.
     fast = info.id in QUICK_MODELS
     budget = (3000 if tier != "quick" else 900) if fast else 150
+    if fast and not partable.orientation_parameters:
+        budget = 3000                  # microseconds per point: afford meshes well over 1000 points everywhere
     if partable.orientation_parameters and not two_d:
         budget = min(budget, 300)      # 1-D values of oriented shapes are numerical orientation averages
     if info.id in VERY_SLOW_MODELS:
@@ -540,7 +542,7 @@ def gen_pars(w, info, two_d, tier):
         dist = w.choice(DISTS)
         npts = w.choice([2, 3, 4, 5, 7, 10, 13, 25, 40])
         if k == 1 and w.random() < 0.4:
-            npts = w.choice([99, 100, 101, 140, 250])
+            npts = w.choice([99, 100, 101, 140, 250, 1001, 1300])
         while npts > 2 and npts * 2 > budget:
             npts //= 2
         budget = max(2, budget // npts)
@@ -628,6 +630,12 @@ def sweep_configs(tier):
     out.append(dict(base, model="parallelepiped", q="xy4", sched_seed=9, pars=dict(
         [(k + "_pd", 0.1 if k.startswith("length") else 5.0) for k in ("length_a", "length_b", "length_c", "theta", "phi", "psi")]
         + [(k + "_pd_n", 2) for k in ("length_a", "length_b", "length_c", "theta", "phi", "psi")])))
+    out.append(dict(base, model="sphere", q="q3", sched_seed=10, dtype="single", pars={
+        "radius_pd": 0.3, "radius_pd_n": 1300, "radius_pd_type": "lognormal"}))
+    out.append(dict(base, model="vesicle", q="q6", sched_seed=11, dtype="single", mode=1, pars={
+        "radius_pd": 0.2, "radius_pd_n": 35, "thickness_pd": 0.2, "thickness_pd_n": 40}))
+    out.append(dict(base, model="vesicle", q="q3", sched_seed=12, pars={
+        "radius_pd": 0.2, "radius_pd_n": 41, "thickness_pd": 0.1, "thickness_pd_n": 29, "thickness_pd_type": "schulz"}))
     return [dict(c, family="fixed_workloads") for c in out]
 
 
